@@ -88,6 +88,14 @@ def gen(tier, rng, harness=None):
             m = (1 << 63) | frac
         h = "%04X%016X" % (s | e, m)
         lines += ["flt.canon x86_fp80 " + h, "!flt.rt x86_fp80 " + h]
+    # x86_fp80, NON-canonical encodings: pseudo-denormals (printed normalised, as LLVM prints them), unnormals, pseudo-infinities and pseudo-NaNs (NaNs to LLVM:
+    # the recorded NaN-payload finding covers what is printed for them)
+    for _ in range(max(8, n // 4)):
+        s = rng.choice([0, 0x8000])
+        frac = rng.choice([0, 1, (1 << 62), (1 << 63) - 1, rng.getrandbits(63)])
+        for e, m in ((0, (1 << 63) | frac), (rng.choice([1, 2, 0x3FFF, 0x7FFE, rng.randrange(1, 0x7FFF)]), frac), (0x7FFF, frac)):
+            h = "%04X%016X" % (s | e, m)
+            lines += ["flt.canon x86_fp80 " + h, "!flt.rt x86_fp80 " + h]
     # ppc_fp128: pairs with zero low double (oracle only)
     for b in patterns(rng, 11, 52, n // 3):
         if ((b >> 52) & 0x7FF) != 0x7FF:
@@ -235,6 +243,7 @@ def search(ln, a, b, harness, driver):
     c = "!flt.rt %s %s" % (p[1], p[2])
     x = C.run_lines([harness, "run"], [c])[0]
     y = C.run_lines([driver], [c])[0]
-    if x.split()[0] in ("FAIL", "panic") and y == "ok":
+    if x.split()[0] in ("FAIL", "panic") and (y == "ok" or not x.startswith("FAIL bits")):
+        # (where the model predicts the recorded loss of the NaN payload, only a failure of ANOTHER kind — the value is no longer a NaN — is a new violation)
         return {"ops": [c], "impl": [x], "model": [y]}
     return None
